@@ -483,12 +483,18 @@ func c11Conc(c *Ctx) {
 			_ = t.upsert(e, roundrobin.Weight(1))
 			_ = t.upsert(e, roundrobin.Weight(0))
 		}
-		n := 2 + r.IntN(4)
+		n := 3 + r.IntN(4)
+		var real []*url.URL
 		for k := 0; k < n; k++ {
-			if err := t.upsert(c11GenURL(r, k), roundrobin.Weight(1+r.IntN(2))); err != nil {
+			u := c11GenURL(r, k)
+			if err := t.upsert(u, roundrobin.Weight(1+r.IntN(2))); err != nil {
 				return
 			}
+			real = append(real, u)
 		}
+		// one of the real servers is removed for good while the sessions and the churn are running
+		victim := real[r.IntN(len(real))]
+		victimKey := urlKey(victim)
 		var adminStop atomic.Bool
 		var adminWG sync.WaitGroup
 		adminWG.Add(1)
@@ -524,8 +530,8 @@ func c11Conc(c *Ctx) {
 							cookie = ck
 						}
 					}
-					if strings.Contains(first, "|churn-") {
-						continue // served by a server that is being removed and re-added: not guaranteed to stay a member
+					if strings.Contains(first, "|churn-") || first == victimKey {
+						continue // served by a server that is being removed (and re-added): not guaranteed to stay a member
 					}
 					if cookie == nil || first == "" {
 						bad.Add(1)
@@ -545,11 +551,36 @@ func c11Conc(c *Ctx) {
 			}()
 		}
 		close(start)
+		time.Sleep(time.Duration(100+r.IntN(400)) * time.Microsecond)
+		removeErr := t.remove(victim)
 		wg.Wait()
 		adminStop.Store(true)
 		adminWG.Wait()
 		c.Eval()
 		c.Count("conc_sessions", sessions.Load())
+		// the victim was removed (the call returned nil) while requests and other administration calls were running: it is
+		// no longer a member, a cookie naming it is re-balanced and answered with a fresh cookie
+		if removeErr != nil {
+			c.Violation("conc/remove-failed", sfmt("%s: RemoveServer of a member failed under concurrency: %v", kind, removeErr), nil)
+			return
+		}
+		for _, k := range keysOf(t.servers()) {
+			if k == victimKey {
+				c.Violation("conc/removed-server-still-member", sfmt("codec %s, %s: a server removed (RemoveServer returned nil) while requests and other pool changes were running is still listed as a member", codec.desc, kind), nil)
+				return
+			}
+		}
+		for q := 0; q < 3; q++ {
+			req := httptest.NewRequest("GET", "http://client.test/", nil)
+			req.AddCookie(&http.Cookie{Name: "aff", Value: codec.v.Get(victim)})
+			rec := httptest.NewRecorder()
+			t.serve(rec, req)
+			if rec.Header().Get("X-Routed") == victimKey {
+				c.Violation("conc/removed-server-still-routed", sfmt("codec %s, %s: a request carrying the cookie of a server that was removed during concurrent traffic is still routed to it", codec.desc, kind), nil)
+				return
+			}
+		}
+		c.Count("conc_removed_victims_checked", 1)
 		if bad.Load() > 0 {
 			c.Violation("conc/fresh-cookie-wrong-server", sfmt("codec %s, %s: %d of %d concurrent sessions got a fresh cookie that does not pin them to the server that answered (%v)", codec.desc, kind, bad.Load(), G*per, firstBad.Load()), nil)
 			return
